@@ -115,7 +115,19 @@ def _run_kvdrive_once(script_text, wd, name, variant, env, timeout, taskset, std
         return tp, 124, "timeout after %ss" % timeout
 
 
-def run_cli(args, variant="rel", stdin_bytes=None, timeout=60, env=None, cwd=None, leaks=False):
+def run_cli(args, variant="rel", stdin_bytes=None, timeout=60, env=None, cwd=None, leaks=False, hang_is_verdict=True):
+    """returncode 124 = timeout; hang_is_verdict="retry": a timed-out run is repeated once alone with three times the budget"""
+    r = _run_cli_once(args, variant, stdin_bytes, timeout, env, cwd, leaks)
+    if r[0] == 124 and hang_is_verdict == "retry":
+        import fcntl
+        os.makedirs(os.path.join(ROOT, "work"), exist_ok=True)
+        with open(os.path.join(ROOT, "work", ".alone.lock"), "w") as lk:
+            fcntl.flock(lk, fcntl.LOCK_EX)
+            r = _run_cli_once(args, variant, stdin_bytes, 3 * timeout, env, cwd, leaks)
+    return r
+
+
+def _run_cli_once(args, variant, stdin_bytes, timeout, env, cwd, leaks):
     bdir = build(variant)
     e = dict(os.environ)
     if variant == "san":
